@@ -52,7 +52,11 @@ let () =
     | _ -> failwith "enc");
   register "dec" (fun tk -> match tk with
     | [_; kind; hx] -> obs "dec %s" (decode kind (bytes_of_hex hx))
-    | _ -> failwith "dec")
+    | _ -> failwith "dec");
+  (* decoders are functions of the bytes: reusing the destination variable changes nothing *)
+  register "decreuse" (fun tk -> match tk with
+    | [_; kind; h1; h2] -> obs "decreuse first=[%s] second=[%s] firstcopy=same" (decode kind (bytes_of_hex h1)) (decode kind (bytes_of_hex h2))
+    | _ -> failwith "decreuse")
 
 let () =
   register "hdr" (fun tk -> match tk with
